@@ -237,14 +237,29 @@ Definition custom_can_report (p : params) (merged : rules_map) (cat title : str)
 Definition violation_level (p : params) (merged : rules_map) (cat title : str) : str :=
   level_for_rule p (entry_of merged cat title) cat title.
 
-(* DetermineEnabledRules: [rule | data.regal.rules[cat][rule]; notices == set(); not ignored_rule(cat, rule)],
-   sorted by the caller; [bundled] lists data.regal.rules[cat][rule], [noticed] the notices
-   that do not depend on the input *)
+(* DetermineEnabledRules (repaired):
+     array.concat([rule | data.regal.rules[cat][rule]; notices == set(); not ignored_rule(cat, rule)],
+                  [rule | data.custom.regal.rules[cat][rule]; not ignored_rule(cat, rule)])
+   sorted by the caller.  [bundled] lists data.regal.rules[cat][rule], [custom] the loaded custom
+   rules, [noticed] the notices that do not depend on the input. *)
 Definition determine_enabled_rules (p : params) (merged : rules_map) (bundled : list (str * str))
-           (noticed : str -> str -> bool) : list str :=
+           (noticed : str -> str -> bool) (custom : list (str * str)) : list str :=
   map snd (filter (fun ct => negb (noticed (fst ct) (snd ct)) &&
                              negb (ignored_rule p (entry_of merged (fst ct) (snd ct)) (fst ct) (snd ct)))
-                  bundled).
+                  bundled)
+  ++ map snd (filter (fun ct => negb (ignored_rule p (entry_of merged (fst ct) (snd ct)) (fst ct) (snd ct)))
+                     custom).
+
+(* as pinned before the repair: custom rules were left out *)
+Definition determine_enabled_rules_pinned (p : params) (merged : rules_map) (bundled : list (str * str))
+           (noticed : str -> str -> bool) : list str :=
+  determine_enabled_rules p merged bundled noticed [].
+
+(* DetermineEnabledAggregateRules: the same without the notices condition, over the rules that
+   define `aggregate` *)
+Definition determine_enabled_aggregate_rules (p : params) (merged : rules_map)
+           (bundled_agg custom_agg : list (str * str)) : list str :=
+  determine_enabled_rules p merged bundled_agg (fun _ _ => false) custom_agg.
 
 (* ------------------------------------------------------------------------------------------ *)
 (* Specification: README "Ignoring Rules" — methods ranked, the first that says anything wins;
